@@ -98,6 +98,29 @@ func genC10Facts() (string, string) {
 	val := parse("validation/validation.go")
 	fmt.Fprintf(&b, "def c10_validationErrorSites : List String := [%s]\n", joinLean(append(append(errorSites(val, "checkFileObject"), errorSites(val, "checkPath")...), errorSites(val, "checkDeviceRequest")...)))
 	fmt.Fprintf(&b, "def c10_graphErrorSites : List String := [%s]\n", joinLean(append(errorSites(parse("graph/services.go"), "newGraph"), errorSites(parse("graph/cycle.go"), "searchCycle")...)))
+	// printed bodies (space-normalised, no comments) of the small functions the model mirrors statement by statement:
+	// any edit to one of them changes a fact that `Props/C10.lean` pins
+	tf := parse("types/types.go")
+	pf := parse("types/project.go")
+	sf := parse("graph/services.go")
+	cf := parse("graph/cycle.go")
+	for _, e := range []struct{ name, body string }{
+		{"c10_body_GetScale", funcBody(tf, "ServiceConfig", "GetScale")},
+		{"c10_body_GetService", funcBody(pf, "Project", "GetService")},
+		{"c10_body_GetServices", funcBody(pf, "Project", "GetServices")},
+		{"c10_body_newGraph", funcBody(sf, "", "newGraph")},
+		{"c10_body_CheckCycle", funcBody(cf, "", "CheckCycle")},
+		{"c10_body_checkCycle", funcBody(cf, "graph[T]", "checkCycle")},
+		{"c10_body_searchCycle", funcBody(cf, "", "searchCycle")},
+		{"c10_body_check", funcBody(val, "", "check")},
+		{"c10_body_checkFileObject", funcBody(val, "", "checkFileObject")},
+		{"c10_body_checkPath", funcBody(val, "", "checkPath")},
+		{"c10_body_checkDeviceRequest", funcBody(val, "", "checkDeviceRequest")},
+		{"c10_body_checkExternal", funcBody(parse("validation/external.go"), "", "checkExternal")},
+		{"c10_body_checkVolume", funcBody(parse("validation/volume.go"), "", "checkVolume")},
+	} {
+		fmt.Fprintf(&b, "def %s : String := %s\n", e.name, leanStr(e.body))
+	}
 	b.WriteString("\nend CV.Gen\n")
 	fmt.Fprintf(logw, "C10 facts: %d error sites in checkConsistency, %d case lists\n", len(sites), len(cases))
 	return "C10Facts.lean", b.String()
